@@ -67,7 +67,7 @@ SINGLE = ["filter", "filter_none", "filterfalse", "filterfalse_none", "takewhile
 
 def jobs(tier):
     q = tier == "quick"
-    T = 150 if q else 900
+    T = 300 if q else 900
     J = []
 
     def add(op, S, N, steps, **kw):
